@@ -23,6 +23,10 @@ R = "hazard_pointer_thread_record"
 
 def run(ctx):
     P = ctx.prog()
+    from rules import check_zeroed_alloc
+    check_zeroed_alloc(ctx, P, "hazard_pointer_thread_record_create_and_push", "record.zero", "the hazard slots of a new thread record",
+                       "a stale slot word that equals a node's address is a phantom hazard: every scan keeps that node in the retired list for ever "
+                       "(no bounded reclamation), and the record's retired list / plist start from garbage")
     u = P.fn("hazard_pointer_using")
     o = ctx.ob("publish", u, "the slot store is followed, on every path to the return, by a full store->load fence",
                "without it the validating re-read can be satisfied from before the slot store became visible: a scanner misses the hazard and "
